@@ -239,6 +239,7 @@ fn mk_ght3(r: &Rows) -> Ght3 {
     for t in r { g.insert(var_expr!(t[0], t[1], t[2])); }
     g
 }
+#[allow(dead_code)]
 fn abs2<G: GeneralizedHashTrieNode<Schema = var_type!(u8, u8)>>(g: &G) -> Abs {
     norm(g.recursive_iter().map(|row| { let var_args!(a, b) = row; pack(&[*a, *b]) }).collect())
 }
